@@ -31,6 +31,8 @@ Definition dup_prefix_group (g : group) : bool :=
 
 Definition group_model (g : group) : list obs :=
   if dup_prefix_group g then [model_obs (g_base g); RErr] else
+  (* initBindings has no counterpart in the model: only the VALUES form is evaluated *)
+  if nonempty (g_pushed g) then [model_obs (g_base g)] else
   model_obs (g_base g)
   :: map (fun cv => ren_obs (snd cv) (model_obs (fst cv))) (g_vars g)
   ++ repeat (model_obs (g_base g)) (N.to_nat (g_same g)).
@@ -43,7 +45,15 @@ Fixpoint list_eqb {A} (eq : A -> A -> bool) (a b : list A) : bool :=
   | x :: r, y :: s => eq x y && list_eqb eq r s
   | _, _ => false
   end.
-Definition obs_eqb15 (a b : vobs) : bool := list_eqb (list_eqb obs_eqb) a b.
+(* the model's list of a group may be a prefix of the implementation's (observations
+   without a counterpart in the model are compared by the specification only) *)
+Fixpoint prefix_eqb (m o : list obs) : bool :=
+  match m, o with
+  | [], _ => true
+  | x :: r, y :: s => obs_eqb x y && prefix_eqb r s
+  | _ :: _, [] => false
+  end.
+Definition obs_eqb15 (a b : vobs) : bool := list_eqb prefix_eqb a b.
 
 (* the specification: within every group, every way of posing the query gives
    the same answer (multiset of solutions) *)
@@ -56,7 +66,7 @@ Definition spec_ok15 (c : vcase) (o : vobs) : bool :=
    top-down evaluator are then not those of the algebra, and need not be
    invariant); for initBindings the bound variables are pushed at the root *)
 Definition kf_case (pushed : list var) (c : case) : N :=
-  first_nz (scan false pushed (c_alg c))
+  first_nz (scan (map fst (ds_named (c_ds c))) false pushed (c_alg c))
            (if nonempty (inter (bool_vars (c_alg c)) (cmp_vars (c_alg c))) then 9 else 0).
 Definition kf_group (g : group) : bool :=
   negb (N.eqb (kf_case (g_pushed g) (g_base g)) 0)
